@@ -83,7 +83,7 @@ fn check(text: &str, gap_desc: &str) -> Res {
       let lost: Vec<&String> = want.iter().filter(|c| !got.contains(c)).collect();
       let extra: Vec<&String> = got.iter().filter(|c| !want.contains(c)).collect();
       let what = if !lost.is_empty() {
-        if gap_desc.starts_with("BB@") {
+        if gap_desc.starts_with("BB@") || gap_desc.starts_with("BBB@") {
           // pairs exist to check *order*; a loss is already reported by the single-comment variant
           // of the same gap (every gap of a pair is also a single-comment case)
           return Res::Ok;
@@ -182,6 +182,21 @@ fn variants_of(origin: &str, text: &str, pairs: bool, out: &mut Vec<Case>) {
       t.push_str(&c);
       t.push_str(&text[*off..]);
       out.push(Case { text: t, gap: format!("{k}@{desc}"), origin: origin.to_string() });
+    }
+  }
+  // two block comments in ONE gap and a third in the next gap (comments that are forwarded across a
+  // separator must keep their order among themselves and relative to the next node's own comments)
+  if pairs || text.len() < 400 {
+    for i in 0..gaps.len().saturating_sub(1) {
+      let (o1, d1) = &gaps[i];
+      let (o2, d2) = &gaps[i + 1];
+      let mut t = String::new();
+      t.push_str(&text[..*o1]);
+      t.push_str(" /* first */ /* second */ ");
+      t.push_str(&text[*o1..*o2]);
+      t.push_str(" /* third */ ");
+      t.push_str(&text[*o2..]);
+      out.push(Case { text: t, gap: format!("BBB@{d1}+{d2}"), origin: origin.to_string() });
     }
   }
   if pairs {
